@@ -511,6 +511,15 @@ func (w *World) observeProofs(n *Node, st *State, seed uint64) (out []obs) {
 			return
 		}
 	}
+	if w.opt.Property == "C17" && len(pool) >= 2 && r.Pct(25) {
+		// a request that names a leaf twice in a row: whatever the answer is (not
+		// judged), the caller's list must come back as it was (fingerprints)
+		dup := padH([]H{pool[0], pool[0], pool[1]})
+		g := w.fp.begin("Prove", dup)
+		guard(func() error { _, e := n.acc.Prove(dup); return e })
+		g.end()
+		w.stats.Reach["prove_request_names_a_leaf_twice"]++
+	}
 	// non-live / untracked hashes are not provable
 	if w.on("provable-set") {
 		for i, h := range st.Leaves {
@@ -624,6 +633,14 @@ func (w *World) checkUpdateData(n *Node, b *Block, ud u.UpdateData) {
 		return
 	}
 	if !eqU64(ud.NewDelPos, e.DelPos) {
+		if len(ud.NewDelPos) > 64 || len(e.DelPos) > 64 {
+			i := 0
+			for i < len(ud.NewDelPos) && i < len(e.DelPos) && ud.NewDelPos[i] == e.DelPos[i] {
+				i++
+			}
+			bad("delpos", "NewDelPos has %d entries, expected %d; first difference at index %d", len(ud.NewDelPos), len(e.DelPos), i)
+			return
+		}
 		bad("delpos", "NewDelPos %v, expected %v", ud.NewDelPos, e.DelPos)
 		return
 	}
